@@ -1,6 +1,6 @@
 (* Props/C06.v -- property theorems only *)
 From Coq Require Import ZArith List.
-From Falcon Require Import Base.Res IL.Const IL.Expr IL.Func Exec.Sem Lift.Lang Lift.LangSem Lift.Recover Lift.C06Check Lift.RecoverProofs Lift.RecoverLang Cfg.SOps Cfg.SProofs Cfg.MergeLift.
+From Falcon Require Import Base.Res IL.Const IL.Expr IL.Func Exec.Sem Lift.Lang Lift.LangSem Lift.Recover Lift.C06Check Lift.RecoverProofs Lift.RecoverLang Lift.RecoverManual Cfg.SOps Cfg.SProofs Cfg.MergeLift.
 Import ListNotations.
 
 (* 1. the validator run on every recovered function is sound: acceptance means the two graphs read exactly
@@ -186,3 +186,33 @@ Theorem recover_executes_like_machine_code : forall prog tb fa f,
                   (forall m2, exists m1, sem_obs m1 f' st = sem_obs m2 gp st)).
 Proof. exact RecoverLang.recover_executes_like_machine_code. Qed.
 Print Assumptions recover_executes_like_machine_code.
+
+(* 13. (final round) the same with manual edges, outside the known-finding class: man_fit says that the block
+       translation at every manual head ends where the straight-line run from the head ends (it fits one window).
+       rspec_m: as rspec, with the requested edges exit(run_end h) -> entry(t) (the first request for a link wins) and
+       the machine-level link edges that no request with a different guard overrides -- the oracle's convention. *)
+Theorem recover_graph_spec_m : forall prog tb fa ms f,
+  tb_spec prog tb -> prog_ok prog -> man_fit prog tb ms -> recover tb fa ms = Ok f ->
+  exists lay, rspec_m prog ms (fa :: flat_map (fun m => [mm_head m; mm_tail m]) ms) fa lay (f_cfg f) /\ f_addr f = fa.
+Proof. exact RecoverManual.recover_graph_spec_m. Qed.
+Print Assumptions recover_graph_spec_m.
+
+Theorem recover_lang_m : forall prog tb fa ms f,
+  tb_spec prog tb -> prog_ok prog -> man_fit prog tb ms -> recover tb fa ms = Ok f ->
+  let roots := fa :: flat_map (fun m => [mm_head m; mm_tail m]) ms in
+  exists lay, rspec_m prog ms roots fa lay (f_cfg f) /\
+    forall gp, rspec_m prog ms roots fa lay gp -> forall w, lang (f_cfg f) w <-> lang gp w.
+Proof. exact RecoverManual.recover_lang_m. Qed.
+Print Assumptions recover_lang_m.
+
+Theorem recover_executes_like_machine_code_m : forall prog tb fa ms f,
+  tb_spec prog tb -> prog_ok prog -> man_fit prog tb ms -> recover tb fa ms = Ok f -> merge_ready (static_view (f_cfg f)) = true ->
+  let roots := fa :: flat_map (fun m => [mm_head m; mm_tail m]) ms in
+  exists f' lay, recover_full tb fa ms = Ok f' /\ f_addr f' = fa /\ rspec_m prog ms roots fa lay (f_cfg f) /\
+    forall gp, rspec_m prog ms roots fa lay (f_cfg gp) ->
+      (forall w, lang (f_cfg f') w <-> lang (f_cfg gp) w) /\
+      (det (f_cfg f') = true -> det (f_cfg gp) = true -> sem_wf (f_cfg f') = true -> sem_wf (f_cfg gp) = true ->
+       forall st, (forall m1, exists m2, sem_obs m1 f' st = sem_obs m2 gp st) /\
+                  (forall m2, exists m1, sem_obs m1 f' st = sem_obs m2 gp st)).
+Proof. exact RecoverManual.recover_executes_like_machine_code_m. Qed.
+Print Assumptions recover_executes_like_machine_code_m.
